@@ -12,7 +12,7 @@ FOUND = {'bc0071c':'reading (plan §7 #1); every C05 / C13 / C19 / C20 case', 'c
  '79e6fa8':'C15 R (one-row frames holding a 2-D block)', '3e7486a':'C10 V (reflexivity on Frames without columns)', 'b56cbf4':'C07 V (iterable sites, bytes elements)',
  '97a75d6':'C01 interface sweep (pickle route)', 'cf14fbf':'C09 R (SFGo all-or-nothing on extend)', '9be9762':'C01 interface sweep (__round__)', '440ae54':'C05 R (open-ended innermost slices) and V (grow-only histories)',
  'adb8f64':'C02 V (derivation routes loc / drop.loc with an empty list on IndexDate)', 'd22eecb':'C02 V (lookup of the appended label before any rebuild, auto-integer form)', '91323b6':'C20 V (ragged unstack)',
- '357cde4':'C17 V (route get)', 'd624f2a':'C17 V/R (per-label StoreConfigMap, max_persist=1, multi-label selection)', 'fcd6657':'C17 V (route sort_values under a bound)', 'b97f7f8':'C16 V (items route with hierarchical columns)', '0e09e0f':'C02 V twin sweep (every iter_label call on a grown IndexGO), first run', 'ba40eaf':'a seeding sub-agent (aside); then grow-only sources in the axis-1 grouping family of C13 V', 'e29c57d':'C15 V (all-int8 family: every sum / prod down the columns of a multi-block frame); the Boolean half was found in round 1 by MC_C15 replay and listed as a known finding until the repair', 'c8e245a':'C13 V (window routes: every frame_axis1_array event with a negative start_shift)', '5ec7cf6':'a seeding sub-agent (aside); then positional insert keys in C08 V', '024e89d':'a seeding sub-agent (aside); then the auto-leaf family of C05 V', '0bf238c':'a seeding sub-agent (aside); then over-long absent keys in C05 V', '722b007':'a seeding sub-agent (aside); then depth-3 level_drop events of C02 V', '7e6bc6a':'a seeding sub-agent (aside in its notes); then the store-fidelity events of C17 V (unsorted integer index)', 'dc8fcda':'C03 shape family, hierarchical part (Trace_Ops sample)', '8d2a84e':'a seeding sub-agent (aside in its notes); then the caller-array table of C01 V', '8b67db0':'C03 shape family (MC_SHAPE replay + Trace_Ops sample), first run', 'f3ebf4f':'C03 shape family (MC_SHAPE replay: every |column shift| >= number of columns), first run', '1922442':'probing while writing SFShape; then the V sample of the shape family', '8385cda':'C14 R / V, C06 V, C19 V (zero-column operands); repaired late together with 90f1a79', '90f1a79':'C04 R / C08 R (every case with an empty column selection and a row subset); repaired late, after the zero-blocks shape reference was read', '54ee292':'a seeding sub-agent studying C06 (then two merge sites of C07)', '8ae44bc':'C09 R under seeds 11 and 14 of the multi-seed sweep (history: unsized append on the columns of an empty FrameGO)'}
+ '357cde4':'C17 V (route get)', 'd624f2a':'C17 V/R (per-label StoreConfigMap, max_persist=1, multi-label selection)', 'fcd6657':'C17 V (route sort_values under a bound)', 'b97f7f8':'C16 V (items route with hierarchical columns)', '45abe28':'C17 V Bus twin sweep (iter_element / iter_element_items / apply on a lazily loaded Bus), first run', '0e09e0f':'C02 V twin sweep (every iter_label call on a grown IndexGO), first run', 'ba40eaf':'a seeding sub-agent (aside); then grow-only sources in the axis-1 grouping family of C13 V', 'e29c57d':'C15 V (all-int8 family: every sum / prod down the columns of a multi-block frame); the Boolean half was found in round 1 by MC_C15 replay and listed as a known finding until the repair', 'c8e245a':'C13 V (window routes: every frame_axis1_array event with a negative start_shift)', '5ec7cf6':'a seeding sub-agent (aside); then positional insert keys in C08 V', '024e89d':'a seeding sub-agent (aside); then the auto-leaf family of C05 V', '0bf238c':'a seeding sub-agent (aside); then over-long absent keys in C05 V', '722b007':'a seeding sub-agent (aside); then depth-3 level_drop events of C02 V', '7e6bc6a':'a seeding sub-agent (aside in its notes); then the store-fidelity events of C17 V (unsorted integer index)', 'dc8fcda':'C03 shape family, hierarchical part (Trace_Ops sample)', '8d2a84e':'a seeding sub-agent (aside in its notes); then the caller-array table of C01 V', '8b67db0':'C03 shape family (MC_SHAPE replay + Trace_Ops sample), first run', 'f3ebf4f':'C03 shape family (MC_SHAPE replay: every |column shift| >= number of columns), first run', '1922442':'probing while writing SFShape; then the V sample of the shape family', '8385cda':'C14 R / V, C06 V, C19 V (zero-column operands); repaired late together with 90f1a79', '90f1a79':'C04 R / C08 R (every case with an empty column selection and a row subset); repaired late, after the zero-blocks shape reference was read', '54ee292':'a seeding sub-agent studying C06 (then two merge sites of C07)', '8ae44bc':'C09 R under seeds 11 and 14 of the multi-seed sweep (history: unsized append on the columns of an empty FrameGO)'}
 for ln in log:
     h, subj = ln.split('\t', 1)
     prop, what = fixed.get(h, ('?', subj))
